@@ -120,6 +120,19 @@ def make_cases(rng, tier):
     cases, extra_bad, kinds = [], [], {}
     while len(cases) < n:
         p, cols = mp.gen_mprog(rng, rng.choice([0, 1, 2, 3, 4, 6]), p_opts=0.3)
+        if rng.random() < 0.2:
+            # targets known to have at most one row: a window of width <= 1, a one-row or empty leaf, a doomed relation
+            shape = rng.choice(["window", "window", "tiny_leaf", "doomed"])
+            if shape == "window":
+                a0 = rng.choice([0, 1, 2])
+                p = ("un", ("slice", a0, a0 + rng.choice([0, 1])), mp.DEFAULT, p)
+            else:
+                lf = mp.gen_leaf(rng, 77, None, rng.choice(mp.ENGINES), special=0, loose=0)
+                if shape == "doomed":
+                    p = ("leaf", 77, lf[2], lf[3], [], (0, 0), "doomed")
+                else:
+                    rows = lf[4][:rng.choice([0, 1])]
+                    p = ("leaf", 77, lf[2], lf[3], rows, (len(rows), len(rows)))
         w, rel, res = mp.run_build(p)
         if rel is None:
             continue                      # the prefix must be well typed
